@@ -30,7 +30,8 @@ How the generated search stays quiet (every exclusion is counted in the evidence
   * phase lists are linearly independent by construction, -tolerance is the default or larger, waters are not proportional
     (degenerate LPs are where F3-F5 occur silently);
   * a violation is reported only if it is reproduced by two reformulations of the same problem (reversed phase order; all amounts
-    scaled by 1.7 + rotated phase order): sporadic solver failures do not survive that, a wrong set-up does (`not_reproduced_*` events);
+    scaled by 1.7 + rotated phase order) and by two neighbouring problems (relative uncertainties 1.3 % wider / narrower): sporadic
+    solver failures and razor-edge infeasible "optima" do not survive that, a wrong set-up does (`not_reproduced_*` events);
   * (d) is asserted per model as "at least 3 and more than 60 % of the reported intervals are inverted or miss their value";
     single intervals are counted (`known_F3:*`); (c) tolerates a wrong-signed transfer below 0.1 % of the largest transfer (`known_F4:*`).
 """
@@ -698,14 +699,24 @@ def execute(case, ctx):
 
 
 def reformulate(case, variant):
-    """the same inverse problem written differently (nothing the property depends on changes):
-    1: phases listed in reverse order;  2: every amount scaled by 1.7 (water masses, reactant moles, absolute uncertainties)
-    and the phase list rotated.  Used to tell a reproducible violation from a sporadic failure of the LP solver."""
+    """the same inverse problem written differently (1: phases listed in reverse order;  2: every amount scaled by 1.7 - water masses,
+    reactant moles, absolute uncertainties - and the phase list rotated) or a neighbouring problem (3, 4: relative uncertainties
+    1.3 % wider / narrower).  Used to tell a reproducible violation from a sporadic failure of the LP solver."""
     import copy
     c = copy.deepcopy(case)
     inv = c["inv"]
     if variant == 1:
         inv["phases"] = list(reversed(inv["phases"]))
+        return c
+    if variant in (3, 4):
+        # a neighbouring problem: every relative uncertainty 1.3 % wider / narrower (a model that exists only on the razor edge of
+        # feasibility - where the solver returns infeasible points as optimal, F5 - does not survive both)
+        g = 1.013 if variant == 3 else 0.987
+        sc = lambda u: float("%.12g" % (u * g)) if u > 0 else u
+        inv["unc"] = [sc(u) for u in inv["unc"]] if inv["unc"] else [sc(0.05)]
+        inv["balances"] = [[b, [sc(u) for u in us]] for b, us in inv["balances"]]
+        if not any(b == "pH" and us for b, us in inv["balances"]):
+            inv["balances"].append(["pH", [sc(0.05)]])
         return c
     f = 1.7
     k = (len(inv["phases"]) + 1) // 2
@@ -730,7 +741,7 @@ def check_case(case, ctx):
             raise
         # a violation counts only if it is reproducible: the pinned tree's LP solver sporadically returns wrong answers without any
         # notice (known findings F1, F3, F4, F5); those do not survive a reformulation of the same problem, a wrong set-up does
-        for variant in (1, 2):
+        for variant in (1, 2, 3, 4):
             try:
                 check_once(reformulate(case, variant), ctx, False)
             except Violation:
